@@ -97,4 +97,10 @@ CHECKS = {
                              "positioned range insert: contents not judged (not part of the statement)"],
                 explanation="explicit-state BFS to a fixpoint on the real fixed_vector against a bounded std::vector, full observation "
                             "(size, [], at, forward/reverse iteration, data, front/back) after every transition"),
+    "C17": dict(src=["checks/C17.cpp"], nitro=[], variants=PLAIN_ASAN, runs=both, deadline_s={"quick": 300, "thorough": 1500},
+                assumptions=["replace_all with an empty pattern: only termination is judged (normal return or a library exception)",
+                             "termination is decided by a per-case timer (3 s, re-run alone with 30 s) and a 2 GiB address-space limit",
+                             "alphabet {a, b, blank}; longer strings and other bytes are not explored"],
+                explanation="every string up to the bound x every separator / pattern / replacement of length <= 3, every small element list x "
+                            "infix, real functions vs naive single-pass references and the algebraic laws"),
 }
